@@ -380,12 +380,34 @@ def ArgInsideList(rng):
   return prog, ['F', 'H', 'N', 'M'], ['fam_arg_inside_list']
 
 
+def TwoInstancesChain(rng):
+  """The same functor applied twice with different values of one argument that
+  it reaches only through a chain of intermediate predicates: every
+  application gets its own copies of the whole chain."""
+  x = Var('x')
+  A, B, C = _Distinct(['A', 'B', 'C'], rng)
+  Inner = Pred('Inner', [Rule([('col0', x, '')], [Atom('A', [('col0', x)])]),
+                         Rule([('col0', Op('+', x, Lit(N_(10))), '')],
+                              [Atom('A', [('col0', x)])])])
+  Mid = Pred('Mid', [Rule([('col0', x, ''), ('logica_value', Lit(N_(1)), 'Sum')],
+                          [Atom('Inner', [('col0', x)])], True)])
+  F = Pred('F', [Rule([('col0', x, ''), ('col1', Var('n'), '')],
+                      [Atom('Mid', [('col0', x), ('logica_value', Var('n'))])])])
+  prog = Prog([A, B, C, Inner, Mid, F])
+  names = ['Shop', 'Market']
+  rng.shuffle(names)
+  prog['makes'] = [{'name': names[0], 'functor': 'F', 'args': [{'k': 'A', 'v': 'B'}]},
+                   {'name': names[1], 'functor': 'F', 'args': [{'k': 'A', 'v': 'C'}]}]
+  return prog, ['F', 'Shop', 'Market'], ['fam_two_instances_chain']
+
+
 C04_FAMILIES = [('made_with_own_rules', MadeWithOwnRules),
                 ('made_with_limit', MadeWithLimit),
                 ('make_order_chain', MakeOrderChain),
                 ('swap_bindings', SwapBindings),
                 ('clone_limited_twice', CloneLimitedTwice),
-                ('arg_inside_list', ArgInsideList)]
+                ('arg_inside_list', ArgInsideList),
+                ('two_instances_chain', TwoInstancesChain)]
 
 
 # ---- C01 / C11: else-if chains, repeated functional calls --------------------------
